@@ -774,8 +774,11 @@ impl SwiftParser {
                     }
                 }
                 4 => {
-                    // Block 4 ends with "-}"
-                    if let Some(end) = raw_message[start..].find("-}") {
+                    // Block 4 ends with "-}" at the start of a line; only when there is no such
+                    // line fall back to the first "-}" (a "-}" inside a field value is content)
+                    let body = &raw_message[start..];
+                    if let Some(end) = body.find("\n-}").map(|e| e + 1).or_else(|| body.find("-}"))
+                    {
                         let end = start + end;
                         Ok(Some(raw_message[content_start..end].to_string()))
                     } else {
